@@ -4,6 +4,8 @@ import (
 	"bytes"
 	"fmt"
 	"os"
+	"strings"
+	"sync"
 	"time"
 
 	"github.com/bbva/qed/balloon"
@@ -415,4 +417,123 @@ func clusterCmd(out *cq.Out, seed uint64, tier string) {
 		c.stopAll()
 		os.RemoveAll(dir)
 	}
+	concurrentProposers(out, seed, tier)
+}
+
+// concurrentProposers: many clients insert at the same time through RaftNode.Add/AddBulk of one leader (what the
+// API handlers do, one goroutine per request).  Every acknowledged snapshot must carry the digest of its own event,
+// the versions handed out must be 0..total-1 with none repeated or skipped, and the log must afterwards report
+// each event at exactly the version that was acknowledged.
+func concurrentProposers(out *cq.Out, seed uint64, tier string) {
+	dir, _ := os.MkdirTemp(out.Dir, "prop")
+	defer os.RemoveAll(dir)
+	ports := freePorts(1)
+	n, _, err := startNode(nodeOpts{id: 0, name: "prop", dir: dir, raftPort: ports[0], bootstrap: true, snapThr: 8192, trailing: 10240})
+	if err != nil || !waitLeader(n) {
+		out.Count("proposers_skipped_infrastructure", 1)
+		if n != nil {
+			n.Close(true)
+		}
+		return
+	}
+	G, B, K, size := 12, 6, 12, 64*1024
+	if tier == "thorough" {
+		G, B = 12, 12
+	}
+	type ack struct {
+		evs   [][]byte
+		snaps []*balloon.Snapshot
+		err   error
+	}
+	acks := make([][]ack, G)
+	// rounds: in each one all clients call at the same instant (their pre-raft work overlaps for certain)
+	for b := 0; b < B; b++ {
+		var wg sync.WaitGroup
+		start := make(chan struct{})
+		var mu sync.Mutex
+		for g := 0; g < G; g++ {
+			wg.Add(1)
+			go func(g int) {
+				defer wg.Done()
+				var evs [][]byte
+				k := K
+				if (b+g)%4 == 3 {
+					k = 1
+				}
+				for j := 0; j < k; j++ {
+					e := make([]byte, size+g*37+j*13+b) // different lengths, not multiples of the hash block
+					copy(e, []byte(fmt.Sprintf("proposer %d bulk %d event %d seed %d", g, b, j, seed)))
+					for x := 64; x < len(e); x += 61 {
+						e[x] = byte(x*(g+1) + b + j)
+					}
+					evs = append(evs, e)
+				}
+				<-start
+				var snaps []*balloon.Snapshot
+				var err error
+				if p, msg := cq.Catch(func() {
+					if k == 1 {
+						var s1 *balloon.Snapshot
+						s1, err = n.Add(evs[0])
+						snaps = []*balloon.Snapshot{s1}
+					} else {
+						snaps, err = n.AddBulk(evs)
+					}
+				}); p {
+					err = fmt.Errorf("panic: %s", msg)
+				}
+				mu.Lock()
+				if err != nil && strings.HasPrefix(err.Error(), "panic: ") {
+					out.Violate("C05:insertion-panics-under-concurrent-clients", fmt.Sprintf("RaftNode.Add/AddBulk panicked while %d clients insert at the same time: %.200s", G, err), map[string]interface{}{"seed": seed, "scenario": "concurrent-proposers", "goroutines": G})
+				}
+				acks[g] = append(acks[g], ack{evs, snaps, err})
+				mu.Unlock()
+			}(g)
+		}
+		close(start)
+		wg.Wait()
+	}
+	desc := map[string]interface{}{"seed": seed, "scenario": "concurrent-proposers", "goroutines": G, "calls_each": B, "bulk": K, "event_bytes": size}
+	seen := map[uint64]string{}
+	total := 0
+	for g := range acks {
+		for b, a := range acks[g] {
+			if a.err != nil {
+				out.Count("proposers_call_errors", 1)
+				continue
+			}
+			for i, s := range a.snaps {
+				total++
+				id := fmt.Sprintf("proposer %d call %d event %d", g, b, i)
+				want := hashing.NewSha256Hasher().Do(a.evs[i])
+				if s == nil || !bytes.Equal(s.EventDigest, want) {
+					out.Violate("C05:acknowledged-with-wrong-digest", fmt.Sprintf("%s (one of %d concurrent clients) was acknowledged with a snapshot whose EventDigest is not the digest of the event sent", id, G), desc)
+					continue
+				}
+				if prev, dup := seen[s.Version]; dup {
+					out.Violate("C05:version-issued-twice", fmt.Sprintf("version %d was acknowledged for %s and for %s", s.Version, prev, id), desc)
+				}
+				seen[s.Version] = id
+				p, err := n.QueryDigestMembership(want)
+				if err != nil || !p.Exists || p.ActualVersion != s.Version {
+					out.Violate("C05:acknowledged-version-not-in-log", fmt.Sprintf("%s was acknowledged with version %d; the log now answers exists=%v version=%v (err=%v)", id, s.Version, p != nil && p.Exists, func() interface{} {
+						if p == nil {
+							return nil
+						}
+						return p.ActualVersion
+					}(), err), desc)
+				}
+			}
+		}
+	}
+	for v := uint64(0); v < uint64(total); v++ {
+		if _, ok := seen[v]; !ok && len(seen) == total {
+			out.Violate("C05:version-not-dense:concurrent", fmt.Sprintf("%d insertions were acknowledged by one leader but version %d was given to none of them", total, v), desc)
+			break
+		}
+	}
+	out.Count("proposers_events", total)
+	out.Case("proposers", true)
+	out.Sample(map[string]interface{}{"scenario": "concurrent-proposers", "events": total, "goroutines": G})
+	n.Close(true)
 }
